@@ -139,9 +139,8 @@ def build(rng, P, rep, table_mode=False):
                 rep.violation(f'C09/operator-form-unsupported/{kind}', f'building {desc} raised {type(e).__name__}: {e}', case=dict(expr=desc))
             return None
         n = Node(r, ev, desc, typ, kind, children)
-        # a pending attribute access (x.real) that is used as an operand *and* read/used again loses its attribute (known
-        # finding, exercised by the dedicated scenario in the operator table): such nodes are only read, never operands
-        (leaf_only if kind == 'attr' else nodes).append(n)
+        # (pending attribute accesses such as x.real are ordinary operands: used by several consumers and read again)
+        nodes.append(n)
         return n
 
     def of(typ):
